@@ -51,6 +51,10 @@ OV_MCREW = dict(name="mcrew", files={
     "_overlay/mcrew/zz_verif_util_test.go": "cmd/mcrew/zz_verif_util_test.go",
 })
 
+OV_MDB = dict(name="mdb", files={
+    "_overlay/mdb/zz_verif_c13_test.go": "cmd/mdb/zz_verif_c13_test.go",
+})
+
 A_MATCH = ["the reference matcher (lib/refmatch), written from README/doc/rfc.md, is the oracle",
            "messages and bound values contain no string starting with '?' (as the property states)"]
 reg("C01", "./checks/match", "^TestC01", assumptions=A_MATCH, fuzz=[("./checks/match", "FuzzC01Sound", 90)])
@@ -77,11 +81,13 @@ CHECKS["C09sio"]["subchecks"] = ["stdio"]
 reg("C09mcrew", "./cmd/mcrew", "^TestC09", overlay=OV_MCREW, shards=(4, 16), assumptions=["mcrew's store: the reloaded service is populated with Storage.GetCrew + AsMachines, as cmd/mcrew does at start-up"])
 CHECKS["C09mcrew"]["subchecks"] = ["mcrew"]
 reg("C13", None, None)
-CHECKS["C13"]["parts"] = ["C13core", "C13mcrew"]
+CHECKS["C13"]["parts"] = ["C13core", "C13mcrew", "C13mdb"]
 reg("C13core", "./checks/core", "^TestC13", fuzz=[("./checks/core", "FuzzC13Repr", 90)], assumptions=["strings in YAML renderings are produced by the YAML library's own marshaller", "native actions cannot be represented as text and are not generated here"])
 CHECKS["C13core"]["subchecks"] = ["repr"]
 reg("C13mcrew", "./cmd/mcrew", "^TestC13", overlay=OV_MCREW, shards=(4, 16), assumptions=["mcrew's Service.GetSpec is called on a Service value that has only its spec directory and interpreters set"])
 CHECKS["C13mcrew"]["subchecks"] = ["mcrew"]
+reg("C13mdb", "./cmd/mdb", "^TestC13", overlay=OV_MDB, shards=(4, 16), assumptions=["mdb's Host.GetSpec is called on a host made by NewHost over a scratch spec directory"])
+CHECKS["C13mdb"]["subchecks"] = ["mdb"]
 reg("C18", "./checks/core", "^TestC18", fuzz=[("./checks/core", "FuzzC18Permanent", 45)], assumptions=A_CORE + ["an action that returns null gets empty bindings; whether permanent bindings survive that is not judged"])
 
 A_ES = ["schedules are sampled by the Go scheduler under the race detector; a green run is 'no counterexample in the sampled schedules'"]
